@@ -109,6 +109,8 @@ pub fn wild_leaves() -> Vec<Term> {
     vec![Seg { gl: 1, gc: 1, orig: Some(K_B) }, Seg { gl: 1, gc: 9, orig: None }, Seg { gl: 5, gc: 2, orig: Some(K_A) }],
     vec![Seg { gl: 1, gc: 0, orig: Some((0, 0, 0, None)) }],
     vec![Seg { gl: 2, gc: 0, orig: Some((1, 0, 5, Some(0))) }],
+    vec![Seg { gl: 1, gc: 1 << 30, orig: Some((1 << 30, 1 << 30, 1 << 30, Some(1 << 30))) }],
+    vec![Seg { gl: 1, gc: 0, orig: Some((1 << 30, 1 << 30, 1 << 30, Some(1 << 30))) }, Seg { gl: 2, gc: 1, orig: Some((0, 2, 1 << 30, None)) }],
   ];
   for text in ["", "a", "ab\ncd", "é\n€b", "\n"] {
     for (i, segs) in wild_segs.iter().enumerate() {
@@ -466,4 +468,92 @@ pub fn c06_bounds(tier: &str) -> Value {
     "concat": "all ordered pairs of the pool; all ordered triples of the reduced pool flat, nested boxed, nested typed+add",
     "replace": "inner = every pool element (all sets of <= 2 replacements, every start<=end in 0..=len+1, contents {'', X, \\n, Y\\nZ}, names, enforce) and every pair of the reduced pool (singles; pairs in thorough)",
   })
+}
+
+// ---------------------------------------------------------------- C17 (trees) / C19 (trees)
+
+/// SourceMapSource with inner map where segments, source and name indices point outside text or tables.
+pub fn for_each_wild_combined(st: &mut Striper, visit: &mut dyn FnMut(&Term)) {
+  use crate::term::O4;
+  let gen = "ab\nc";
+  let original = "xy\nz";
+  let (gpos, _) = crate::model::positions(gen);
+  let mut opos = gpos.clone();
+  opos.push((3, 0)); // beyond the text
+  let outer_kinds: Vec<Option<O4>> = vec![
+    None,
+    Some((0, 0, 0, None)),       // inner line 0
+    Some((0, 9, 9, None)),       // beyond the inner text
+    Some((0, 1, 0, Some(7))),    // name index outside the table
+    Some((5, 1, 0, None)),       // source index outside the table
+    Some((0, 1, 1, Some(0))),
+    Some((1, 0, 0, Some(1))),    // other source, line 0
+  ];
+  let inner_kinds: Vec<Option<O4>> = vec![
+    None,
+    Some((0, 0, 0, None)),       // original line 0 (with recorded content)
+    Some((9, 1, 0, None)),       // source index outside the table
+    Some((0, 1, 0, Some(9))),    // name index outside the table
+    Some((0, 7, 7, Some(0))),    // beyond the recorded content
+    Some((1, 1, 0, None)),
+  ];
+  let outer_lists = trees::seg_lists(&opos, &outer_kinds, 2);
+  let (ipos0, iend) = crate::model::positions(original);
+  let mut ipos = ipos0.clone();
+  ipos.push(iend);
+  ipos.push((5, 3));
+  let inner_lists = trees::seg_lists(&ipos, &inner_kinds, 2);
+  for osegs in &outer_lists {
+    if !st.mine() {
+      continue;
+    }
+    for isegs in &inner_lists {
+      for opt in 0..8u8 {
+        let given = opt & 1 != 0;
+        let outer_has_content = opt & 2 != 0;
+        let remove = opt & 4 != 0;
+        let mut om = MapSpec::new(osegs.clone(), &["inner.js", "o1"], None, &["ab", "zz"]);
+        if outer_has_content {
+          om.contents = Some(vec![original.to_string(), "other".into()]);
+        }
+        let im = MapSpec::new(isegs.clone(), &["x0", "x1"], if opt % 3 == 0 { None } else { Some(&["ab\ncd", "q"]) }, &["in0"]);
+        let t = Term::Sms(Box::new(SmsSpec {
+          value: gen.to_string(),
+          name: "inner.js".into(),
+          map: om,
+          original_source: given.then(|| original.to_string()),
+          inner: Some(im),
+          remove,
+        }));
+        visit(&t);
+      }
+    }
+  }
+}
+
+pub fn c17_tree_worker(tier: &str, k: usize, n: usize, ctx: &mut Ctx) {
+  let all = |_: &Term| true;
+  sweep(ctx, &wild_scope(tier), k, n, &all, &mut |c, t| tc::all_methods_return(c, t));
+  let mut st = Striper::new(k, n);
+  for_each_wild_combined(&mut st, &mut |t| {
+    crate::set_current_case(t);
+    ctx.begin_case(|| serde_json::to_string(t).unwrap());
+    ctx.states += 1;
+    ctx.sample(100_000, 2, || sample_of(t));
+    tc::all_methods_return(ctx, t);
+    // and wrapped the way rspack uses it
+    let w = Term::replace(Term::cached(t.clone()), vec![crate::term::Repl::new(1, 2, "X").named("n")]);
+    crate::set_current_case(&w);
+    tc::all_methods_return(ctx, &w);
+    let w2 = Term::concat(vec![Term::orig("q\n", "q.js"), t.clone()]);
+    crate::set_current_case(&w2);
+    tc::all_methods_return(ctx, &w2);
+  });
+  crate::clear_current_case();
+  if tier == "thorough" {
+    // the general ASCII scope as a "returns normally" sweep as well
+    let mut sc = general_scope("quick");
+    sc.repl_max_leaf = 2;
+    sweep(ctx, &sc, k, n, &all, &mut |c, t| tc::all_methods_return(c, t));
+  }
 }
